@@ -1,6 +1,6 @@
 /-
   C04 — Singleton cache protocol: one early reference, final publication, clean failure.
-  PROPERTY THEOREMS ONLY (lemmas live in IocProofs/Lemmas/Registry.lean).
+  PROPERTY THEOREMS ONLY (lemmas live in IocProofs/Lemmas/Registry.lean, M2RefinesM1.lean).
 
   Model: Ioc.Registry (M1) — container/support/singleton_component_registry.go driven the way
   factory.go:140-162 / :190-198 drive it.  A history "a factory can issue" is a list of operation trees
@@ -14,6 +14,7 @@
   entered) and `.ret n result inCreationAfterwards ranEarlyFactory` (a call on n returned).
 -/
 import IocProofs.Lemmas.Registry
+import IocProofs.Lemmas.M2RefinesM1
 import Ioc.RegistrySkel
 import Ioc.Generated.Facts
 namespace Ioc.C04
@@ -169,6 +170,47 @@ theorem C04_clean_failure_needs_remove :
     Ret.ofGet (bad.get 1 false (.error .fail)).1 = .obj e ∧ bad.isInCreation 1 = true ∧
     Ret.ofGet (good.get 1 false (.error .fail)).1 = .none ∧ good.isInCreation 1 = false := by
   decide
+
+/-! ### the factory machine uses this protocol (refinement M2 → M1)
+
+  The factory machine Ioc.Container (M2, the model behind C01–C03, C05, C09) inlines its cache moves.  They are the
+  operations of this registry model, in the pattern of doGetComponent: `M2.Rf.Abs st r` — the registry `r` has the same
+  l1 / l2 (objects translated by `toM1`), `n ∈ r.l3 ↔ st.l3 n`, `n ∈ r.inCr ↔ n is on the creation stack`.
+  `M2.Rf.Proto r` — `r` is reachable from `Reg.empty` by `get n true _`, `startCreate n` after a `get` that returned nil,
+  and `endCreate n res` for an `n` in creation. -/
+
+/-- Every reachable state of the factory machine — any scenario, any number of steps, failed or not — has a registry
+    abstraction produced by protocol operations only; in particular it satisfies the registry invariant `Reg.Inv`. -/
+theorem C04_machine_uses_protocol (sc : M2.Scen) (k : Nat) :
+    ∃ r : Reg, M2.Rf.Abs (M2.run sc k (M2.init sc)) r ∧ M2.Rf.Proto r ∧ r.Inv := by
+  obtain ⟨r, ha, hp⟩ := M2.Rf.run_refines sc k
+  exact ⟨r, ha, hp, hp.inv⟩
+
+/-- `M2.lookup` is `GetSingleton(c, true)`: same answer (object / nil / error), and the states stay related. -/
+theorem C04_machine_lookup (sc : M2.Scen) (st : M2.St) (r : Reg) (c : Nat) (h : M2.Rf.Abs st r) :
+    (∀ o st', M2.lookup sc st c = .hit o st' →
+      (r.get c true (M2.Rf.earlyOf sc c)).1 = .ok (some (M2.Rf.toM1 o)) ∧
+      M2.Rf.Abs st' (r.get c true (M2.Rf.earlyOf sc c)).2) ∧
+    (M2.lookup sc st c = .miss → r.get c true (M2.Rf.earlyOf sc c) = (.ok none, r)) ∧
+    (∀ st', M2.lookup sc st c = .err st' →
+      r.get c true (M2.Rf.earlyOf sc c) = (.error .fail, r) ∧ M2.Rf.Abs st' r) :=
+  M2.Rf.lookup_refines sc st r c h
+
+/-- the cache part of `M2.enter` (push a frame, register the early-reference factory) is `startCreate` =
+    `beginCreate` + `addFactory`; `M2.publish` is `endCreate (ok pub)`; `M2.failAt` is `endCreate (error)` for every
+    creation in progress, innermost first -/
+theorem C04_machine_moves (st : M2.St) (r : Reg) (h : M2.Rf.Abs st r) :
+    (∀ c, st.l1 c = none → M2.Rf.Abs (M2.Lc.push st c) (r.startCreate c)) ∧
+    (∀ f rest pub, st.stack = f :: rest → (M2.Lc.snames st).Nodup →
+      M2.Rf.Abs (M2.publish st f.name pub rest) (r.endCreate f.name (.ok (M2.Rf.toM1 pub)))) ∧
+    (∀ x, (∀ n ∈ M2.Lc.snames st, st.l1 n = none) →
+      M2.Rf.Abs (M2.failAt st x) ((M2.Lc.snames st).foldl (fun r m => r.endCreate m (.error .fail)) r)) :=
+  ⟨fun c h1 => M2.Rf.push_refines st r c h h1,
+   fun f rest pub hs hnd => M2.Rf.publish_refines st r f rest pub h hs hnd,
+   fun x hoff => M2.Rf.failAt_refines st r x h hoff⟩
+
+/-- the hypothesis `Abs st r` is satisfiable: the initial machine state and the empty registry -/
+example (sc : M2.Scen) : M2.Rf.Abs (M2.init sc) Reg.empty := M2.Rf.abs_init sc
 
 /-! ### non-vacuity: concrete, non-trivial histories -/
 
